@@ -55,6 +55,7 @@ def _work_items(prop):
 
 
 _G = {}
+_custom_memo = {}
 
 
 def _init_worker(prop, tier, seed, mutate):
@@ -313,9 +314,17 @@ def _main(prop, tier, seed, t0):
                 _case = [c for c in _C.CONTRACTS[v["qual"]].cases if c.name == v["case"]][0]
                 if getattr(_case, "custom_replay", None):
                     payload["custom"] = _case.custom_replay  # e.g. compile a tiny design with the real compiler
+                if getattr(_case, "finding_key", None):
+                    v["key"] = _case.finding_key  # which documented reason makes this case fail (known findings)
             except Exception:
                 pass
-            repro = RP.try_reproduce(payload, search=True, seed=seed)
+            ck = payload.get("custom")
+            if ck and ck in _custom_memo:
+                repro = _custom_memo[ck]  # one design-level reproduction per documented reason
+            else:
+                repro = RP.try_reproduce(payload, search=True, seed=seed)
+                if ck:
+                    _custom_memo[ck] = repro
             payload["reproduced"] = repro["reproduced"]
             payload["assignment"] = repro.get("assignment", payload["assignment"])
             payload["native_result"] = repro.get("detail")
@@ -324,7 +333,9 @@ def _main(prop, tier, seed, t0):
             v["reproduced"] = repro["reproduced"]
         k = known_match(known, prop, v)
         if k is not None:
-            known_lines.append(f"KNOWN-FINDING: property={prop} {k['what']}")
+            line = f"KNOWN-FINDING: property={prop} {k['what']}"
+            if line not in known_lines:
+                known_lines.append(line)
             if v["kind"] in ("obligation", "custom"):
                 n_obl -= 1  # reported as a known finding, not counted among the obligations of this run
             continue
